@@ -2,7 +2,7 @@ ID = 'C16'
 CXX_SOURCES = []
 GROUPS = ['common']
 LIBS = []
-WRAP = ['epoll_wait']
+WRAP = ['epoll_wait', 'epoll_ctl']
 
 import importlib.util as _ilu
 import os as _os
@@ -40,7 +40,36 @@ TRUSTED = ['modelled rather than verified: TimeoutManager::{RegisterRepeatingTim
            'harness interposes operator new/delete for objects of sizeof(Event subclass) during Register calls to '
            'choose the address deterministically; virtual time through a Clock subclass']
 SPEC_KEYS = ['tr', 'e0', 'e1', 'e2', 'e3', 's0', 's1', 's2', 's3']
-INTERNAL_KEYS = []
+
+
+def _repo_text(rel):
+    for root in (_os.environ.get('VERIF_REPO', '/repo'), '/repo'):
+        try:
+            with open(_os.path.join(root, rel)) as f:
+                return f.read()
+        except OSError:
+            continue
+    return ''
+
+
+def _internal_keys():
+    # The harness prints internal bookkeeping (heap layout / removed set, poller map sizes) only when the
+    # private members it reads still exist (SFINAE probes in harness*.{cpp,h}); mirror that here so that an
+    # internal refactoring does not turn into a correspondence failure.  Property-level keys are unaffected.
+    ks = []
+    t = _repo_text('common/io/TimeoutManager.h')
+    if not all(n in t for n in ('m_events', 'm_removed_timeouts', 'class RepeatingEvent', 'class SingleEvent')):
+        ks.append('st')
+    t = _repo_text('common/io/EPoller.h')
+    if not all(n in t for n in ('m_descriptor_map', 'm_orphaned_descriptors', 'm_free_descriptors')):
+        ks.append('em')
+    t = _repo_text('common/io/SelectPoller.h')
+    if not all(n in t for n in ('m_read_descriptors', 'm_connected_read_descriptors', 'm_write_descriptors')):
+        ks.append('sm')
+    return ks
+
+
+INTERNAL_KEYS = _internal_keys()
 COQ_TIMEOUT = 1500
 
 IVS = [0, 1, 2, 3, 5, 10]
